@@ -1,6 +1,7 @@
 import MosdnsVerif.Base.Hex
 import MosdnsVerif.Model.C07
 import MosdnsVerif.Model.C07R
+import MosdnsVerif.Model.C07U
 import MosdnsVerif.Gen.Facts
 
 namespace Driver.C07
@@ -62,7 +63,31 @@ def runReuse (ops : List String) : String :=
       | some s' => go s' rest ((if s'.closed then "closed" else showDl s'.dl) :: acc)
   go {} ops []
 
+/-- one call on an upstream wrapper (`direct`: a transport used as the upstream, one phase on the caller's context), each operation
+ run to quiescence: `next` the inner exchange in progress ends and the wrapper starts the next one; `ctx` the caller's context ends
+ (and the inner exchange in progress returns if its own context has ended with it); `fin` the inner exchange ends by itself -/
+def wrapPhases (name : String) : List Nat :=
+  if name == "direct" then [0] else Model.C07U.phasesOf Gen.Facts.c07UpstreamCtxArgs name
+
+def wrapOp (ph : List Nat) (s : Model.C07U.W) : String → Option Model.C07U.W
+  | "next" => s.step ph .next
+  | "fin" => s.step ph .final
+  | "ctx" => (s.step ph .ctxEnd).map (fun s1 => (s1.step ph .wake).getD s1)
+  | _ => none
+
+def runWrap (name : String) (ops : List String) : String :=
+  let ph := wrapPhases name
+  let rec go (s : Model.C07U.W) (ops : List String) (acc : List String) : String :=
+    match ops with
+    | [] => ";".intercalate acc.reverse
+    | op :: rest =>
+      match wrapOp ph s op with
+      | none => ";".intercalate (("not-enabled@" ++ op) :: acc).reverse
+      | some s' => go s' rest ((if s'.returned then "returned" else "running") :: acc)
+  go {} ops []
+
 def handle : List String → String
+  | ["wrap", name, ops] => runWrap name (ops.splitOn ",")
   | ["conn", ops] => runOps (ops.splitOn ",")
   | ["reuse", ops] => runReuse (ops.splitOn ",")
   | _ => "bad-op"
